@@ -189,7 +189,13 @@ type ctxKey struct{}
 
 func idHost(id int) string   { return fmt.Sprintf("h%d.example", id) }
 func idMethod(id int) string { return []string{"GET", "POST", "PUT", "DELETE"}[id%4] }
+
+// idRaddr: every seventh request has no remote address at all (requests made with http.NewRequest and served
+// directly, as tests and in-process clients do): its records carry raddr="" - not another request's address.
 func idRaddr(id int) string {
+	if id%7 == 3 {
+		return ""
+	}
 	return fmt.Sprintf("10.%d.%d.%d:%d", id>>16&255, id>>8&255, id&255, 1024+id%60000)
 }
 func idURI(id int) string { return fmt.Sprintf("/p/%d?id=%d&x=%%20", id, id) }
@@ -309,7 +315,12 @@ func (e *env) inner(w http.ResponseWriter, r *http.Request) {
 	switch idKind(id) {
 	case 0:
 	case 1:
-		_, _ = io.WriteString(w, "resp-"+idStr)
+		if id%8 < 4 {
+			// io.Copy prefers the writer's io.ReaderFrom if it offers one
+			_, _ = io.Copy(w, strings.NewReader("resp-"+idStr))
+		} else {
+			_, _ = io.WriteString(w, "resp-"+idStr)
+		}
 	case 2:
 		w.WriteHeader(idCode(id))
 		_, _ = io.WriteString(w, "resp-"+idStr)
@@ -442,6 +453,9 @@ func verify(e *env, ids []int, resps []response) (what string, checks int) {
 		wantR := idRaddr(id)
 		if e.realSrv {
 			wantR = l.attrs["raddr"]
+		}
+		if _, has := l.attrs["raddr"]; !has {
+			return fmt.Sprintf("the %q record of request %d has no raddr attribute", l.msg, id), checks
 		}
 		if l.attrs["host"] != idHost(id) || l.attrs["method"] != idMethod(id) || l.attrs["raddr"] != wantR || (!e.realSrv && uri != idRequestURI(id)) {
 			return fmt.Sprintf("the %q record of request %d carries host=%q method=%q raddr=%q request_uri=%q", l.msg, id, l.attrs["host"], l.attrs["method"], l.attrs["raddr"], uri), checks
@@ -873,7 +887,11 @@ func TestHybridBase(t *testing.T) {
 					what = fmt.Sprintf("a log line of the middleware has no usable request_uri: %q", obj.Message)
 					break
 				}
-				for _, wantAttr := range []string{"host=" + idHost(id), "method=" + idMethod(id), "raddr=" + idRaddr(id)} {
+				wantRaddr := "raddr=" + idRaddr(id)
+				if idRaddr(id) == "" {
+					wantRaddr = `raddr=""`
+				}
+				for _, wantAttr := range []string{"host=" + idHost(id), "method=" + idMethod(id), wantRaddr} {
 					if !strings.Contains(obj.Message, wantAttr) {
 						what = fmt.Sprintf("base logger with %d chained attributes: a line with request_uri of request %d lacks %q: %s", depth, id, wantAttr, obj.Message)
 					}
